@@ -58,7 +58,7 @@ Fixpoint spec_gets (rev_prefix rest : list hop) : list verdict :=
   end.
 
 Definition check_case (c : case) : verdict :=
-  combine_verdicts (spec_gets [] (c_ops c) ++
+  combine_verdicts (spec_gets [] (c_ops c) ++ spec_upper_gets [] (c_ops c) ++
     [if c_http c
      then match run_cmp false true false st_init (c_ops c) with None => Ok | Some w => ModelDiffers w end
      else model_verdict true false (c_ops c)]).
